@@ -337,6 +337,14 @@ def _create(df, n, t, dat):
         f = df.create_categorical(n, 'int8', {'n': 0, 'y': 1}); f.data.write(list(dat))
     elif t == 4:
         f = df.create_timestamp(n); f.data.write([float(x) for x in dat])
+    # t >= 5: a create call whose remaining arguments are invalid (Model/Catalogue.v: df_create_invalid) — it must raise
+    # and leave nothing behind (F-C15d)
+    elif t == 5:
+        f = df.create_numeric(n, 'int33')                     # unknown nformat: TypeError
+    elif t == 6:
+        f = df.create_categorical(n, 'int8', {})              # empty key: ValueError
+    elif t == 7:
+        f = df.create_fixed_string(n, 0)                      # zero length: ValueError
     else:
         raise ValueError(t)
     return f
@@ -524,6 +532,8 @@ def features(case, model):
     for op, (code, o, fl) in zip(ops, steps):
         k = op[0]
         f.add('op:' + k + (':raises' if code else ''))
+        if k == 'create' and op[4] >= 5:
+            f.add('create:invalid-arguments(F-C15d)')
         if code:
             f.add('exc:%d' % code)
         if not all(fl):
@@ -704,7 +714,8 @@ def _gen(tier, rng):
     for a, b in itertools.product(med, repeat=2):
         yield {'init': INIT1, 'ops': [a, b]}
     # (D) every triple over a small alphabet
-    small = [['create', 0, 'd', 'x', 0, [90, 7]], ['delitem', 0, 'd', 'a'],
+    small = [['create', 0, 'd', 'x', 0, [90, 7]], ['create', 0, 'd', 'x', 5, [1]], ['create', 0, 'd', 'a', 6, [1]],
+             ['delitem', 0, 'd', 'a'],
              ['rename', 0, 'd', [['a', 'a_'], ['a_', 'a']], 'dict'], ['rename', 0, 'd', [['b', 'a']], 'single'],
              ['rename', 0, 'd', [['a', 'x']], 'single'], ['rename', 0, 'e', [['a', 'a_']], 'single'],
              ['fmove', 0, 'd', 'a', 0, 'e', 'a_'], ['fmove', 0, 'e', 'a', 0, 'd', 'x'], ['fmove', 0, 'd', 'b', 0, 'd', 'a'],
@@ -731,7 +742,7 @@ def _gen(tier, rng):
             else:
                 o = list(rng.choice(full))
                 if o[0] == 'create':
-                    o = ['create', o[1], o[2], o[3], rng.randint(0, 4), [100 + k, k]]
+                    o = ['create', o[1], o[2], o[3], rng.choice([0, 1, 2, 3, 4, 0, 1, 2, 3, 4, 5, 6, 7]), [100 + k, k]]
                 ops.append(o)
         yield {'init': init, 'ops': ops}
 
